@@ -172,7 +172,7 @@ int pipe_write(int pipe, const uint8_t *buffer, size_t size)
 /* direction the child needs: stdin is read, stdout/stderr are written */
 #define CHILD_DIR_OK(s, fd) ((s) == REPROC_STREAM_IN ? (g.rd & MASK_OF(fd)) != 0 : (g.wr & MASK_OF(fd)) != 0)
 #define RTYPE (RD_T(redirect))
-#define PARENT_FALLS_BACK (g.cfg_std_fileno[stream] < 0)
+#define PARENT_FALLS_BACK (gc.cfg_std_fileno[stream] < 0)
 #define OPENS_FILE (RTYPE == RT_DISCARD || RTYPE == RT_PATH || (RTYPE == RT_PARENT && PARENT_FALLS_BACK))
 
 CONTRACT(redirect_init)
@@ -184,12 +184,12 @@ int redirect_init(pipe_type *parent, handle_type *child, REPROC_STREAM stream, r
   ENS("C10/redirect_init.pipe_parent_holds_other_end", IMPLIES(RV == 0 && RTYPE == RT_PIPE, FD_NEW(*parent) && FD_NEW(*child) && *parent != *child && ONLY_NEW2(*parent, *child) && g.obj[*child] >= OBJ_PIPE_BASE && (stream == REPROC_STREAM_IN ? ((g.obj[*child] & 1) == 0 && g.obj[*parent] == g.obj[*child] + 1) : ((g.obj[*parent] & 1) == 0 && g.obj[*child] == g.obj[*parent] + 1)) && CHILD_DIR_OK(stream, *child)))
   ENS("C17/redirect_init.pipe_parent_end_mode_child_end_blocking", IMPLIES(RV == 0 && RTYPE == RT_PIPE, ((g.nonblock & MASK_OF(*parent)) != 0) == nonblocking && (g.nonblock & MASK_OF(*child)) == 0))
   ENS("C11/redirect_init.created_descriptors_close_on_exec", IMPLIES(RV == 0 && (RTYPE == RT_PIPE || OPENS_FILE), (g.cloexec & MASK_OF(*child)) != 0 && IMPLIES(RTYPE == RT_PIPE, (g.cloexec & MASK_OF(*parent)) != 0)))
-  ENS("C10/redirect_init.parent_stream", IMPLIES(RV == 0 && RTYPE == RT_PARENT && !PARENT_FALLS_BACK, *child == g.cfg_std_fileno[stream] && FD_LEDGER_UNCHANGED))
+  ENS("C10/redirect_init.parent_stream", IMPLIES(RV == 0 && RTYPE == RT_PARENT && !PARENT_FALLS_BACK, *child == gc.cfg_std_fileno[stream] && FD_LEDGER_UNCHANGED))
   ENS("C10/redirect_init.parent_stream_missing_means_null_device", IMPLIES(RV == 0 && RTYPE == RT_PARENT && PARENT_FALLS_BACK, FD_NEW(*child) && ONLY_NEW1(*child) && g.obj[*child] == OBJ_DEVNULL && CHILD_DIR_OK(stream, *child)))
   ENS("C10/redirect_init.discard_is_null_device", IMPLIES(RV == 0 && RTYPE == RT_DISCARD, FD_NEW(*child) && ONLY_NEW1(*child) && g.obj[*child] == OBJ_DEVNULL && CHILD_DIR_OK(stream, *child)))
-  ENS("C10/redirect_init.path_opened_in_right_direction", IMPLIES(RV == 0 && RTYPE == RT_PATH, FD_NEW(*child) && ONLY_NEW1(*child) && CHILD_DIR_OK(stream, *child) && IMPLIES(redirect.path == g.cfg_path[0], g.obj[*child] == OBJ_PATH_BASE)))
+  ENS("C10/redirect_init.path_opened_in_right_direction", IMPLIES(RV == 0 && RTYPE == RT_PATH, FD_NEW(*child) && ONLY_NEW1(*child) && CHILD_DIR_OK(stream, *child) && IMPLIES(redirect.path == gc.cfg_path[0], g.obj[*child] == OBJ_PATH_BASE)))
   ENS("C10/redirect_init.handle_is_users", IMPLIES(RV == 0 && RTYPE == RT_HANDLE, *child == redirect.handle && FD_LEDGER_UNCHANGED))
-  ENS("C10/redirect_init.file_is_users", IMPLIES(RV == 0 && RTYPE == RT_FILE, *child == g.cfg_file_fd && FD_LEDGER_UNCHANGED))
+  ENS("C10/redirect_init.file_is_users", IMPLIES(RV == 0 && RTYPE == RT_FILE, *child == gc.cfg_file_fd && FD_LEDGER_UNCHANGED))
   ENS("C10/redirect_init.stdout_shares_childs_stdout", IMPLIES(RV == 0 && RTYPE == RT_STDOUT, *child == out && FD_LEDGER_UNCHANGED))
   ENS("C10/redirect_init.parent_end_only_for_pipes", IMPLIES(RV == 0 && RTYPE != RT_PIPE, *parent == -1))
   ENS("C05/redirect_init.failure_leaves_no_descriptor", IMPLIES(RV != 0, FD_LEDGER_UNCHANGED && *parent == OLD(*parent) && *child == OLD(*child)))
@@ -211,6 +211,26 @@ handle_type redirect_destroy(handle_type child, REPROC_REDIRECT type)
   ENS("C05/redirect_destroy.never_closes_user_or_parent_streams", IMPLIES(!DESTROY_CLOSES(type), FD_LEDGER_UNCHANGED && g.os_calls == OLD(g.os_calls)))
   ENS("C05/redirect_destroy.others_keep_flags", FD_FRAME_EXCEPT(DESTROY_CLOSES(type) ? MASK_OF(child) : 0u))
   ENS("C14/redirect_destroy.nothing_else", g.child_pid == OLD(g.child_pid) && g.child_reaped == OLD(g.child_reaped) && g.child_live == OLD(g.child_live) && g.nsig == OLD(g.nsig) && g.reaps == OLD(g.reaps) && g.sigmask == OLD(g.sigmask) && g.now == OLD(g.now))
+  ;
+
+/* --------------------------------- strv.c -------------------------------- */
+
+/* As seen by process_start: NULL with ENOMEM, or a fresh vector recorded as
+   "a followed by b" (its contents are decided in strv_concat's own harness). */
+CONTRACT(strv_concat)
+char **strv_concat(char *const *a, const char *const *b)
+  ASSIGNS(g)
+  ENS("C03/strv_concat.result_recorded", IMPLIES(RV != NULL, __CPROVER_is_fresh(RV, sizeof(char *)) && g.env_ptr == RV && g.env_a == a && g.env_b == b))
+  ENS("C04/strv_concat.null_is_enomem", IMPLIES(RV == NULL, g.faults > OLD(g.faults) && g.err == ENOMEM && IMPLIES(OLD(g.faults) == 0, g.first_errno == ENOMEM)))
+  ENS("C05/strv_concat.only_memory", g.open == OLD(g.open) && g.lib == OLD(g.lib) && g.cloexec == OLD(g.cloexec) && g.nonblock == OLD(g.nonblock) && g.sigmask == OLD(g.sigmask) && g.child_pid == OLD(g.child_pid) && g.child_live == OLD(g.child_live) && g.fork_stage == OLD(g.fork_stage) && g.nsig == OLD(g.nsig) && g.cwd_id == OLD(g.cwd_id) && g.in_child == OLD(g.in_child) && g.dup_ptr == OLD(g.dup_ptr) && g.dup_src == OLD(g.dup_src) && g.prep_ptr == OLD(g.prep_ptr) && g.prep_src == OLD(g.prep_src) && g.disp_default == OLD(g.disp_default) && g.reaps == OLD(g.reaps) && g.child_reaped == OLD(g.child_reaped))
+  ;
+
+CONTRACT(strv_free)
+char **strv_free(char **l)
+  ASSIGNS()
+  FREES(l)
+  ENS("C05/strv_free.returns_null", RV == NULL)
+  ENS("C05/strv_free.vector_released", IMPLIES(l != NULL, __CPROVER_was_freed(l)))
   ;
 
 /* ------------------------------ process.posix.c --------------------------- */
@@ -245,6 +265,37 @@ int process_kill(pid_t process)
   ENS("C07/process_kill.sends_sigkill_once", IMPLIES(RV == 0, g.nsig == OLD(g.nsig) + 1 && IMPLIES(OLD(g.nsig) < 4, g.sig_log[OLD(g.nsig)] == SIGKILL)))
   ENS("C07/process_kill.failure_sends_nothing", IMPLIES(RV != 0, RV == -g.err && RV < 0 && g.nsig == OLD(g.nsig)))
   ENS("C05/process_kill.ledger_unchanged", FD_LEDGER_UNCHANGED && g.child_pid == OLD(g.child_pid) && g.child_reaped == OLD(g.child_reaped) && g.child_live == OLD(g.child_live) && g.reaps == OLD(g.reaps))
+  ;
+
+
+#define DISP_ALL_DEFAULT_PUB ((~g.disp_default & 0xfffffffeUL & ~(1UL << SIGKILL) & ~(1UL << SIGSTOP)) == 0)
+#define PS_PARENT (!g.in_child)
+#define PS_HANDLES_MASK (MASK_OF(options.handle.in) | MASK_OF(options.handle.out) | MASK_OF(options.handle.err) | MASK_OF(options.handle.exit))
+
+/* process_start, both sides of fork. Parent side (C04, C05, C06, C12): returns 1
+   with a live child whose program was executed, or a negative error with no
+   child left, nothing leaked and the caller's process state untouched. Child
+   side: everything the started program is promised is asserted by the execvp
+   contract of the OS layer (labels C03/exec.*, C10/exec.*, C11/exec.*,
+   C12/exec.*); failures are reported through the error pipe (C04/child.*). */
+CONTRACT(process_start)
+int process_start(pid_t *process, const char *const *argv, struct process_options options)
+  REQ_(process != NULL && !g.in_child && g.fork_stage == 0 && g.child_pid == 0 && !g.child_live)
+  REQ("C06/process_start.handle_not_yet_started", *process == -1)
+  REQ("C13/process_start.argv_wellformed", argv == NULL || argv[0] != NULL)
+  REQ("C10/process_start.child_handles_are_open", IS_OPEN(options.handle.in) && IS_OPEN(options.handle.out) && IS_OPEN(options.handle.err) && IS_OPEN(options.handle.exit))
+  ASSIGNS(*process, g, environ)
+  ENS("C04/process_start.parent_gets_one_or_error", IMPLIES(PS_PARENT, RV == 1 || RV < 0))
+  ENS("C04+C06/process_start.success_is_live_child_that_executed", IMPLIES(PS_PARENT && RV == 1, *process == g.child_pid && *process > 0 && g.child_live && !g.child_reaped && g.reaps == OLD(g.reaps) && g.child_fate == FATE_EXECED))
+  ENS("C04+C05+C06/process_start.failure_leaves_no_child_and_no_pid", IMPLIES(PS_PARENT && RV < 0, *process == -1 && !g.child_live && (g.child_pid == 0 || g.child_reaped)))
+  ENS("C04/process_start.failure_is_real_cause", IMPLIES(PS_PARENT && RV < 0 && OLD(g.faults) == 0, (g.faults > 0 && RV == -g.first_errno) || ((g.child_fate == FATE_FAILED_EARLY || g.child_fate == FATE_FAILED_LATE) && RV == -g.child_fate_errno)))
+  ENS("C12/process_start.caller_state_untouched", IMPLIES(PS_PARENT, g.sigmask == OLD(g.sigmask) && g.disp_default == OLD(g.disp_default) && g.cwd_id == OLD(g.cwd_id) && environ == OLD(environ)))
+  ENS("C05/process_start.parent_descriptors_as_before", IMPLIES(PS_PARENT, g.open == OLD(g.open) && g.lib == OLD(g.lib) && g.cloexec == OLD(g.cloexec) && g.nonblock == OLD(g.nonblock)))
+  ENS("C06/process_start.sends_no_signal", g.nsig == OLD(g.nsig) && g.kill_calls == OLD(g.kill_calls))
+  ENS("C04/process_start.child_returns_only_in_fork_mode", IMPLIES(g.in_child, RV == 0 && argv == NULL && !g.execd && g.child_reports == 0))
+  ENS("C10/process_start.fork_mode_child_streams", IMPLIES(g.in_child, IS_OPEN(0) && IS_OPEN(1) && IS_OPEN(2) && g.obj[0] == gc.want_obj[0] && g.obj[1] == gc.want_obj[1] && g.obj[2] == gc.want_obj[2]))
+  ENS("C12/process_start.fork_mode_child_clean_signal_state", IMPLIES(g.in_child, g.sigmask == 0 && DISP_ALL_DEFAULT_PUB))
+  ENS("C03/process_start.fork_mode_child_cwd_and_env", IMPLIES(g.in_child, g.cwd_id == gc.want_cwd_id && environ == g.env_ptr && g.env_a == gc.want_env_a && g.env_b == gc.want_env_b))
   ;
 
 #endif
